@@ -64,12 +64,13 @@ struct GF2Machine {
     alignas(V) unsigned char storage[4][sizeof(V)];
     V *reg(int i) { return reinterpret_cast<V*>(storage[i]); }
     std::vector<uint32_t> ref;                               // dense reference over groups
+    std::vector<char> unspec;                                // register was moved from: content unspecified until it is overwritten
     std::vector<std::vector<std::size_t>> concrete;          // mask -> sorted real coordinates
     std::vector<std::set<std::size_t>> sets;                 // mask -> std::set of real coordinates
     std::string name() const { return "SpVecGF2"; }
 
     // sizes: group sizes; interleaved: real coordinates dealt round-robin instead of consecutively; huge: last group is {2^40}
-    GF2Machine(int R, const std::vector<int> &sizes, bool interleaved, bool huge, const std::string &cfgname) : R(R), D((int) sizes.size()), cfgname(cfgname), ref(R, 0) {
+    GF2Machine(int R, const std::vector<int> &sizes, bool interleaved, bool huge, const std::string &cfgname) : R(R), D((int) sizes.size()), cfgname(cfgname), ref(R, 0), unspec(R, 0) {
         group.resize(D);
         std::vector<int> left = sizes; std::size_t next = 0; int total = 0; for (int x : sizes) total += x;
         if (huge) { group[D - 1].push_back(HUGE_COORD); total -= left[D - 1]; left[D - 1] = 0; }
@@ -88,32 +89,44 @@ struct GF2Machine {
     }
     ~GF2Machine() { for (int i = 0; i < R; ++i) reg(i)->~V(); }
 
-    State initial() { return State(R); }
-    State read() { State s(R); for (int i = 0; i < R; ++i) s[i] = reg(i)->ones; return s; }
+    // the state carries one extra pseudo-register: the "unspecified" flags (a moved-from register keeps whatever concrete
+    // content the move left behind - it is part of the state because later overwriting operations start from it)
+    State initial() { State s(R + 1); s[R].assign(R, 0); return s; }
+    State read() { State s(R + 1); for (int i = 0; i < R; ++i) s[i] = reg(i)->ones; for (int i = 0; i < R; ++i) s[R].push_back(unspec[i]); return s; }
     uint32_t mask_of(const std::vector<std::size_t> &v) const { uint32_t m = 0; for (int c = 0; c < D; ++c) if (std::binary_search(v.begin(), v.end(), group[c][0])) m |= 1u << c; return m; }
-    void restore(const State &s) { for (int i = 0; i < R; ++i) { reg(i)->~V(); new (storage[i]) V(); reg(i)->ones = s[i]; ref[i] = mask_of(s[i]); } }
+    void restore(const State &s) { for (int i = 0; i < R; ++i) { reg(i)->~V(); new (storage[i]) V(); reg(i)->ones = s[i]; unspec[i] = (char) s[R][i]; ref[i] = unspec[i] ? 0 : mask_of(s[i]); } }
+    // an operation is enabled iff every register it READS is specified; registers that are only overwritten may be moved-from
+    bool enabled(const Op &o) const {
+        switch (o.kind) {
+        case K_COPYCTOR: case K_MOVECTOR: return !unspec[o.j];
+        case K_COPYASSIGN: case K_MOVEASSIGN: return !unspec[o.j];
+        case K_ADD: return !unspec[o.j] && !unspec[o.k];
+        case K_ADDEQ: return !unspec[o.i] && !unspec[o.j];
+        default: return true;      // unit / set / default construction, clear(): valid on any (also moved-from) object
+        }
+    }
     int parity(uint32_t m) const { std::size_t t = 0; for (int c = 0; c < D; ++c) if (m >> c & 1) t += group[c].size(); return (int) (t & 1); }
 
     void apply(const Op &o) {
         V *ri = reg(o.i);
         switch (o.kind) {
-        case K_UNIT: ri->~V(); new (storage[o.i]) V(group[o.arg][0]); ref[o.i] = 1u << o.arg; break;
-        case K_SET: ri->~V(); new (storage[o.i]) V(sets[o.arg]); ref[o.i] = (uint32_t) o.arg; break;
-        case K_DEFCTOR: ri->~V(); new (storage[o.i]) V(); ref[o.i] = 0; break;
-        case K_COPYCTOR: ri->~V(); new (storage[o.i]) V(*reg(o.j)); ref[o.i] = ref[o.j]; break;
-        case K_MOVECTOR: ri->~V(); new (storage[o.i]) V(std::move(*reg(o.j))); ref[o.i] = ref[o.j];
-            reg(o.j)->~V(); new (storage[o.j]) V(); ref[o.j] = 0; break;      // moved-from: unspecified, re-initialised before it is observed
-        case K_COPYASSIGN: *ri = *reg(o.j); ref[o.i] = ref[o.j]; break;
-        case K_MOVEASSIGN: *ri = std::move(*reg(o.j)); ref[o.i] = ref[o.j];
-            if (o.i != o.j) { reg(o.j)->~V(); new (storage[o.j]) V(); ref[o.j] = 0; } break;
-        case K_ADD: { V t = *reg(o.j) + *reg(o.k); uint32_t x = ref[o.j] ^ ref[o.k]; *ri = t; ref[o.i] = x; break; }
+        case K_UNIT: ri->~V(); new (storage[o.i]) V(group[o.arg][0]); ref[o.i] = 1u << o.arg; unspec[o.i] = 0; break;
+        case K_SET: ri->~V(); new (storage[o.i]) V(sets[o.arg]); ref[o.i] = (uint32_t) o.arg; unspec[o.i] = 0; break;
+        case K_DEFCTOR: ri->~V(); new (storage[o.i]) V(); ref[o.i] = 0; unspec[o.i] = 0; break;
+        case K_COPYCTOR: ri->~V(); new (storage[o.i]) V(*reg(o.j)); ref[o.i] = ref[o.j]; unspec[o.i] = 0; break;
+        case K_MOVECTOR: ri->~V(); new (storage[o.i]) V(std::move(*reg(o.j))); ref[o.i] = ref[o.j]; unspec[o.i] = 0;
+            unspec[o.j] = 1; ref[o.j] = 0; break;      // moved-from: not observed until something overwrites it (assignment, clear, construction)
+        case K_COPYASSIGN: *ri = *reg(o.j); ref[o.i] = ref[o.j]; unspec[o.i] = 0; break;
+        case K_MOVEASSIGN: { uint32_t x = ref[o.j]; *ri = std::move(*reg(o.j)); if (o.i != o.j) { unspec[o.j] = 1; ref[o.j] = 0; } ref[o.i] = x; unspec[o.i] = 0; break; }
+        case K_ADD: { V t = *reg(o.j) + *reg(o.k); uint32_t x = ref[o.j] ^ ref[o.k]; *ri = t; ref[o.i] = x; unspec[o.i] = 0; break; }
         case K_ADDEQ: { uint32_t x = ref[o.i] ^ ref[o.j]; *ri += *reg(o.j); ref[o.i] = x; break; }
-        case K_CLEAR: ri->clear(); ref[o.i] = 0; break;
+        case K_CLEAR: ri->clear(); ref[o.i] = 0; unspec[o.i] = 0; break;
         }
     }
     // returns "" or a description of the first broken invariant / observation
     std::string check(std::string &cls) {
         for (int i = 0; i < R; ++i) {
+            if (unspec[i]) continue;
             V &v = *reg(i);
             std::vector<std::size_t> it(v.begin(), v.end());
             if (it != v.ones) { cls = "iteration"; return "iteration of r" + std::to_string(i) + " differs from its stored coordinates"; }
@@ -122,10 +135,12 @@ struct GF2Machine {
             if (v.size() != concrete[ref[i]].size()) { cls = "size"; return "size() of r" + std::to_string(i) + " is wrong"; }
         }
         for (int i = 0; i < R; ++i) for (int j = 0; j < R; ++j) {
+            if (unspec[i] || unspec[j]) continue;
             int got = *reg(i) * *reg(j), want = parity(ref[i] & ref[j]);
             if (got != want) { cls = "dot-product"; return "r" + std::to_string(i) + "*r" + std::to_string(j) + " = " + std::to_string(got) + ", parity of common coordinates " + std::to_string(want); }
         }
         for (int i = 0; i < R; ++i) for (uint32_t m = 0; m < (1u << D); ++m) {
+            if (unspec[i]) break;
             int got = *reg(i) * sets[m], want = parity(ref[i] & m);
             if (got != want) { cls = "set-product"; char b[128]; snprintf(b, sizeof b, "r%d * set(groups 0x%x) = %d, expected %d", i, m, got, want); return b; }
         }
@@ -154,9 +169,10 @@ struct FPMachine {
     alignas(V) unsigned char storage[4][sizeof(V)];
     V *reg(int i) { return reinterpret_cast<V*>(storage[i]); }
     std::vector<std::vector<long>> ref;     // dense values mod p
+    std::vector<char> unspec;               // moved-from registers (see GF2Machine)
     std::string name() const { return "SpVecFP"; }
 
-    FPMachine(int R, int D, long p, const std::string &pname) : R(R), D(D), p(p), pname(pname), ref(R, std::vector<long>(D, 0)) {
+    FPMachine(int R, int D, long p, const std::string &pname) : R(R), D(D), p(p), pname(pname), ref(R, std::vector<long>(D, 0)), unspec(R, 0) {
         for (int i = 0; i < R; ++i) new (storage[i]) V(P(p));
         for (int i = 0; i < R; ++i) for (int c = 0; c < D; ++c) ops.push_back({K_UNIT, i, 0, 0, c});
         for (int i = 0; i < R; ++i) ops.push_back({K_DEFCTOR, i, 0, 0, 0});
@@ -167,36 +183,48 @@ struct FPMachine {
         for (int i = 0; i < R; ++i) ops.push_back({K_CLEAR, i, 0, 0, 0});
     }
     ~FPMachine() { for (int i = 0; i < R; ++i) reg(i)->~V(); }
-    State initial() { return State(R); }
+    State initial() { State s(R + 1); s[R].assign(R, {0, 0}); return s; }
     static long to_long(const P &x) { return (long) x; }
-    State read() { State s(R); for (int i = 0; i < R; ++i) for (auto &e : reg(i)->entries) s[i].push_back({boost::get<0>(e), to_long(boost::get<1>(e))}); return s; }
+    State read() { State s(R + 1); for (int i = 0; i < R; ++i) for (auto &e : reg(i)->entries) s[i].push_back({boost::get<0>(e), to_long(boost::get<1>(e))}); for (int i = 0; i < R; ++i) s[R].push_back({(std::size_t) unspec[i], 0}); return s; }
     void restore(const State &s) {
         for (int i = 0; i < R; ++i) {
             reg(i)->~V(); new (storage[i]) V(P(p));
             std::fill(ref[i].begin(), ref[i].end(), 0);
-            for (auto &e : s[i]) { reg(i)->entries.push_back(boost::make_tuple(e.first, P(e.second))); ref[i][e.first] = e.second; }
+            unspec[i] = (char) s[R][i].first;
+            for (auto &e : s[i]) { reg(i)->entries.push_back(boost::make_tuple(e.first, P(e.second))); if (!unspec[i]) ref[i][e.first] = e.second; }
+        }
+    }
+    bool enabled(const Op &o) const {
+        switch (o.kind) {
+        case K_COPYCTOR: case K_MOVECTOR: case K_COPYASSIGN: case K_MOVEASSIGN: case K_SCALE: return !unspec[o.j];
+        case K_ADD: return !unspec[o.j] && !unspec[o.k];
+        case K_ADDEQ: return !unspec[o.i] && !unspec[o.j];
+        case K_SCALEEQ: return !unspec[o.i];
+        default: return true;
         }
     }
     long mod(long x) const { x %= p; if (x < 0) x += p; return x; }
-    void fresh(int i) { reg(i)->~V(); new (storage[i]) V(P(p)); std::fill(ref[i].begin(), ref[i].end(), 0); }
+    void fresh(int i) { reg(i)->~V(); new (storage[i]) V(P(p)); std::fill(ref[i].begin(), ref[i].end(), 0); unspec[i] = 0; }
+    void moved_from(int j) { unspec[j] = 1; std::fill(ref[j].begin(), ref[j].end(), 0); }
     void apply(const Op &o) {
         V *ri = reg(o.i);
         switch (o.kind) {
-        case K_UNIT: *ri = (std::size_t) o.arg; std::fill(ref[o.i].begin(), ref[o.i].end(), 0); ref[o.i][o.arg] = 1 % p; break;
+        case K_UNIT: *ri = (std::size_t) o.arg; std::fill(ref[o.i].begin(), ref[o.i].end(), 0); ref[o.i][o.arg] = 1 % p; unspec[o.i] = 0; break;
         case K_DEFCTOR: fresh(o.i); break;
-        case K_COPYCTOR: ri->~V(); new (storage[o.i]) V(*reg(o.j)); ref[o.i] = ref[o.j]; break;
-        case K_MOVECTOR: ri->~V(); new (storage[o.i]) V(std::move(*reg(o.j))); ref[o.i] = ref[o.j]; fresh(o.j); break;
-        case K_COPYASSIGN: *ri = *reg(o.j); ref[o.i] = ref[o.j]; break;
-        case K_MOVEASSIGN: *ri = std::move(*reg(o.j)); ref[o.i] = ref[o.j]; if (o.i != o.j) fresh(o.j); break;
-        case K_ADD: { V t = *reg(o.j) + *reg(o.k); std::vector<long> x(D); for (int c = 0; c < D; ++c) x[c] = mod(ref[o.j][c] + ref[o.k][c]); *ri = t; ref[o.i] = x; break; }
+        case K_COPYCTOR: ri->~V(); new (storage[o.i]) V(*reg(o.j)); ref[o.i] = ref[o.j]; unspec[o.i] = 0; break;
+        case K_MOVECTOR: ri->~V(); new (storage[o.i]) V(std::move(*reg(o.j))); ref[o.i] = ref[o.j]; unspec[o.i] = 0; moved_from(o.j); break;
+        case K_COPYASSIGN: *ri = *reg(o.j); ref[o.i] = ref[o.j]; unspec[o.i] = 0; break;
+        case K_MOVEASSIGN: { std::vector<long> x = ref[o.j]; *ri = std::move(*reg(o.j)); if (o.i != o.j) moved_from(o.j); ref[o.i] = x; unspec[o.i] = 0; break; }
+        case K_ADD: { V t = *reg(o.j) + *reg(o.k); std::vector<long> x(D); for (int c = 0; c < D; ++c) x[c] = mod(ref[o.j][c] + ref[o.k][c]); *ri = t; ref[o.i] = x; unspec[o.i] = 0; break; }
         case K_ADDEQ: { std::vector<long> x(D); for (int c = 0; c < D; ++c) x[c] = mod(ref[o.i][c] + ref[o.j][c]); *ri += *reg(o.j); ref[o.i] = x; break; }
-        case K_SCALE: { V t = *reg(o.j) * P(o.arg); std::vector<long> x(D); for (int c = 0; c < D; ++c) x[c] = mod(ref[o.j][c] * o.arg); *ri = t; ref[o.i] = x; break; }
+        case K_SCALE: { V t = *reg(o.j) * P(o.arg); std::vector<long> x(D); for (int c = 0; c < D; ++c) x[c] = mod(ref[o.j][c] * o.arg); *ri = t; ref[o.i] = x; unspec[o.i] = 0; break; }
         case K_SCALEEQ: { std::vector<long> x(D); for (int c = 0; c < D; ++c) x[c] = mod(ref[o.i][c] * o.arg); *ri *= P(o.arg); ref[o.i] = x; break; }
-        case K_CLEAR: ri->clear(); std::fill(ref[o.i].begin(), ref[o.i].end(), 0); break;
+        case K_CLEAR: ri->clear(); std::fill(ref[o.i].begin(), ref[o.i].end(), 0); unspec[o.i] = 0; break;
         }
     }
     std::string check(std::string &cls) {
         for (int i = 0; i < R; ++i) {
+            if (unspec[i]) continue;
             V &v = *reg(i);
             if (to_long(v.prime()) != p) { cls = "prime"; return "prime() of r" + std::to_string(i) + " changed"; }
             std::vector<long> dense(D, 0); std::size_t prev = 0; bool first = true; std::size_t cnt = 0;
@@ -212,6 +240,7 @@ struct FPMachine {
             if (v.size() != cnt) { cls = "size"; return "size() disagrees with iteration"; }
         }
         for (int i = 0; i < R; ++i) for (int j = 0; j < R; ++j) {
+            if (unspec[i] || unspec[j]) continue;
             long want = 0; for (int c = 0; c < D; ++c) want = mod(want + ref[i][c] * ref[j][c]);
             long got = to_long(*reg(i) * *reg(j));
             if (mod(got) != want) { cls = "dot-product"; return "r" + std::to_string(i) + "*r" + std::to_string(j) + " = " + std::to_string(got) + ", expected " + std::to_string(want); }
@@ -248,6 +277,7 @@ static void bfs(vr::Runner &R, M &m, Totals &tot, uint64_t max_states) {
         auto hist0 = history(id, -1).first;
         for (size_t oi = 0; oi < m.ops.size(); ++oi) {
             m.restore(cur);
+            if (!m.enabled(m.ops[oi])) continue;
             R.crumb_text(hist0 + (parent[id].second >= 0 ? "." : "") + std::to_string(oi));
             std::string cls, err;
             try { m.apply(m.ops[oi]); err = m.check(cls); }
@@ -281,6 +311,7 @@ static int replay(vr::Runner &R, M &m, const std::string &opsstr) {
         int oi = atoi(t.c_str());
         if (oi < 0 || oi >= (int) m.ops.size()) { printf("bad op index %d\n", oi); return 2; }
         printf("  %s\n", op_str(m.ops[oi]).c_str());
+        if (!m.enabled(m.ops[oi])) { printf("operation reads a moved-from register: not part of the alphabet\n"); return 2; }
         try { m.apply(m.ops[oi]); err = m.check(cls); } catch (std::exception &e) { cls = "exception"; err = e.what(); }
         if (!err.empty()) { printf("{\"site\":\"%s\",\"class\":\"%s\",\"msg\":\"%s\"}\nREPLAY-VIOLATION\n", m.name().c_str(), cls.c_str(), vr::json_escape(err).c_str()); return 1; }
     }
